@@ -9,6 +9,9 @@ package dvsim
 
 import (
 	"fmt"
+	"os"
+	"os/exec"
+	"strconv"
 	"sort"
 	"strings"
 	"sync"
@@ -30,6 +33,44 @@ import (
 )
 
 func init() { ndnlog.SetLevel(ndnlog.FatalLevel) } // log text is not an observable
+
+// OtherProcessHashes runs this test binary once more as a child process (mode "hashes") and returns the
+// Name.Hash() values the CHILD computes for the router names r0..r(n-1): the tie-break of equal-cost next
+// hops compares these values, so the order must be the same in every process (a router that restarts is
+// another process).
+func OtherProcessHashes(n int) []uint64 {
+	cmd := exec.Command(os.Args[0], "-test.run", "^TestVerif$")
+	cmd.Env = append(os.Environ(), "VERIF_MODE=hashes", fmt.Sprintf("VERIF_N=%d", n))
+	out, err := cmd.Output()
+	if err != nil {
+		panic("harness: child process for the hash comparison failed: " + err.Error())
+	}
+	var hs []uint64
+	for _, ln := range strings.Split(string(out), "\n") {
+		if strings.HasPrefix(ln, "HASH ") {
+			v, err := strconv.ParseUint(strings.TrimPrefix(ln, "HASH "), 10, 64)
+			if err != nil {
+				panic("harness: bad hash line " + ln)
+			}
+			hs = append(hs, v)
+		}
+	}
+	if len(hs) != n {
+		panic("harness: child process printed the wrong number of hashes")
+	}
+	return hs
+}
+
+// PrintHashes is the child side of OtherProcessHashes.
+func PrintHashes(n int) {
+	for i := 0; i < n; i++ {
+		nm, err := enc.NameFromStr(RouterName(i))
+		if err != nil {
+			panic(err)
+		}
+		fmt.Printf("HASH %d\n", nm.Hash())
+	}
+}
 
 // ScrambleSeed decorrelates consecutive seeds (common.NewRand streams of seeds s and s+1 are the
 // same stream shifted by one draw; the check driver uses consecutive seeds for thorough batches).
